@@ -102,6 +102,23 @@ def main():
         "zzzz": "zzzz", "ZZZZ": "ZZZZ", "rbr": "a]bc", "us": "_", "z": "z", "A": "A",
     }
     emit("G", G)
+    # X: "exceptional" characters - those whose upper-casing is not a single stable BMP character (sharp s, the ligatures,
+    #    n-apostrophe, dotted / dotless i, long s, Kelvin / Ohm / Angstrom signs, final sigma ...), and plain names that
+    #    COLLIDE with them under Rust's / Unicode's full upper-casing (strasse, FILE, 'N).  No independent source for the
+    #    historical CFB case table exists, so nothing is asserted that depends on it: every name of this dictionary has a
+    #    different length in UTF-16 units.  Names of different lengths are different names under any per-unit folding and are
+    #    ordered by length alone - both certain; the unit sequences below are the raw units (only their number matters).
+    X = {
+        "x1": "ŉ", "x2": "ʼN", "x3": "ﬁle", "x4": "FILE", "x5": "İıſKΩ",
+        "x6": "straße", "x7": "STRASSE", "x8": "ǰΐΰµςẞÅx", "x9": "ﬀﬂﬃﬄﬅﬆabc",
+        "x10": "straße.txt", "x11": "STRASSE.TXT", "x12": "ẞ" * 12, "x31": "ß" * 31, "bad_x32": "ß" * 32,
+    }
+    lens = [len(utf16(v)) for v in X.values()]
+    assert len(set(lens)) == len(lens), lens
+    for i, sname in X.items():
+        assert i.isascii()
+    json.dump({"dict": "X", "names": X}, open(f"{OUT}/X.names.json", "w"), ensure_ascii=True, indent=0)
+    json.dump({i: {"u": utf16(sname), "v": valid(sname)} for i, sname in X.items()}, open(f"{OUT}/X.tlc.json", "w"), ensure_ascii=True)
     # values for C17
     def q(secs, nanos):
         EPOCH = 116444736000000000
